@@ -71,7 +71,7 @@ def fmt_correspondence(ctx):
     cs = [(k, w, p, float.fromhex(x) if isinstance(x, str) else x) for k, w, p, x in corpus('fmt')[0]['cases']] if corpus('fmt') else []
     cs += c09fmt.cases(ctx.rng, ctx.n(2000, 40000))
     terms = [c09fmt.eq_term(k, w, p, x, c09fmt.python(k, w, p, x)) for k, w, p, x in cs]
-    bad = c09fmt.kernel_bools(ctx, 'fmt', ['Model.Fmt'], terms)
+    bad = c09fmt.kernel_bools(ctx, 'fmt', ['Model.Fmt', 'Model.Float', 'Model.FloatLit'], terms)
     ctx.count('format-vs-cpython', evaluations=len(cs), nontrivial_keys=[(k, w, p, repr(x)) for k, w, p, x in cs],
               kind={k: sum(1 for c in cs if c[0] == k) for k in ('F', 'Fc', 'E', 'Eu', 'G', 'R', 'RR', 'I')})
     ctx.sample('format-vs-cpython', [[k, w, p, repr(x), c09fmt.python(k, w, p, x)] for k, w, p, x in cs[60:63]])
@@ -80,6 +80,18 @@ def fmt_correspondence(ctx):
         ctx.violate('corr', f'fmt:{k}:{w}.{p}', f'Model/Fmt.v and CPython disagree on format kind {k} width {w} precision {p} of {x!r}',
                     inp={'part': 'fmt', 'kind': k, 'w': w, 'p': p, 'x': float(x).hex() if k != 'I' else x},
                     observed=c09fmt.python(k, w, p, x), expected='text computed by the Coq model (see replay)')
+
+
+def float_correspondence(ctx):
+    """Model/Float.v (binary64 + - * /, Python sum, numpy pairwise sum / average / max / min) against Python and numpy"""
+    cs = c09fmt.float_cases(ctx.rng, ctx.n(500, 6000), ctx.n(60, 700))
+    bad = c09fmt.kernel_bools(ctx, 'float', ['Model.Fmt', 'Model.Float', 'Model.FloatLit'], [t for _, t in cs], shard=400)
+    ctx.count('float-model-vs-numpy', evaluations=len(cs), nontrivial_keys=[repr(d) for d, _ in cs],
+              kind={k: sum(1 for d, _ in cs if d[0] == k) for k in {d[0] for d, _ in cs}})
+    ctx.sample('float-model-vs-numpy', [repr(d) for d, _ in cs[:3]])
+    for i in bad[:5]:
+        d = cs[i][0]
+        ctx.violate('corr', f'float:{d[0]}', f'Model/Float.v and Python/numpy disagree on {d}', inp={'part': 'float', 'case': repr(d), 'term': cs[i][1][:3000]})
 
 
 # ---------------------------------------------------------------------------------------------------------
@@ -254,7 +266,8 @@ def build_inputs(ctx):
                                                  ('-bicycle', [('Economic Model', 3), ('Inflation Rate During Construction', 0.04)]),
                                                  ('-discount9', [('Discount Rate', 0.09), ('Well Drilling Cost Correlation', 3)])]
         if ctx.quick:
-            variants.append(('-bicycle', [('Economic Model', 3), ('Inflation Rate During Construction', 0.04)]))
+            variants += [('-bicycle', [('Economic Model', 3), ('Inflation Rate During Construction', 0.04)]),
+                         ('-fcr', [('Economic Model', 1), ('Fixed Charge Rate', 0.07)])]
         out += [(f'SUTRAExample1{s}', sutra + '\n' + runner.params_to_text(pairs)) for s, pairs in variants]
     ex1 = dict(configs.example_texts(ctx)).get('example1.txt', '')
     for i in range(ctx.n(2, 24)):
@@ -303,7 +316,7 @@ class Collector:
 
     def close_run(self, name, R):
         if self.cur:
-            self.groups.append((name, R.lets(), self.cur))
+            self.groups.append((name, R.defs(), self.cur))
         self.cur = []
 
 
@@ -323,7 +336,7 @@ def check_run(ctx, spec, nodes, name, text, r, col, stats):
         return None
     if not r['ok']:
         stats['runs_ending_in_an_error_after_calculate'] += 1
-    R = rep.Renderer(spec, snap)
+    R = rep.Renderer(spec, snap, tag=stats['runs'] + stats['rejected'] + 1)
     try:
         lines = R.run()
     except rep.SpecError as e:
@@ -512,7 +525,7 @@ def report_correspondence(ctx, spec, inputs, proofs_ok, batch=160):
     sigs = set()
     nterms = 0
     tsim = tcoq = 0.0
-    req = ['Model.Fmt', 'Model.Float', 'Model.Report']
+    req = ['Model.Fmt', 'Model.Float', 'Model.FloatLit', 'Model.Report', 'Gen.ReportLits']
     for lo in range(0, len(inputs), batch):     # bounded memory: snapshots of one batch at a time
         chunk = inputs[lo:lo + batch]
         col = Collector()
@@ -594,6 +607,7 @@ def report_correspondence(ctx, spec, inputs, proofs_ok, batch=160):
 
 def correspondence(ctx, proofs_ok=True):
     fmt_correspondence(ctx)
+    float_correspondence(ctx)
     spec = rep.load_spec()
     cosmetics = []
     try:
@@ -626,8 +640,12 @@ def replay(ctx, data):
     if inp.get('part') == 'fmt':
         x = float.fromhex(inp['x']) if isinstance(inp['x'], str) else inp['x']
         want = c09fmt.python(inp['kind'], inp['w'], inp['p'], x)
-        bad = c09fmt.kernel_bools(ctx, 'replay', ['Model.Fmt'], [c09fmt.eq_term(inp['kind'], inp['w'], inp['p'], x, want)])
+        bad = c09fmt.kernel_bools(ctx, 'replay', ['Model.Fmt', 'Model.Float', 'Model.FloatLit'], [c09fmt.eq_term(inp['kind'], inp['w'], inp['p'], x, want)])
         print('CPython prints', repr(want), '-> Coq model agrees:', not bad)
+        return 1 if bad else 0
+    if inp.get('part') == 'float':
+        bad = c09fmt.kernel_bools(ctx, 'replay', ['Model.Fmt', 'Model.Float', 'Model.FloatLit'], [inp['term']])
+        print('Python/numpy:', inp['case'], '-> Coq float model agrees:', not bad)
         return 1 if bad else 0
     if inp.get('part') == 'drift':
         spec = rep.load_spec()
